@@ -524,7 +524,7 @@ def _run(ctx, tmpd, t0):
     conts = {}
     for r in recs:
         c = _container(r['base'])
-        if c:
+        if c and r['site'].startswith(('Godambe.', 'Inference.', 'Misc.perturb_params', 'Numerics.make_extrap_func')):
             conts.setdefault(r['site'], set()).add(c)
     zero = sorted({r['base'] for r in recs if r['site'].startswith('Integration.') and r['base'].rsplit('_', 2)[-2] in ('z0', 'zi')})
     cov = {
